@@ -345,6 +345,8 @@ pub fn derive_inputs(thorough: bool) -> Vec<String> {
         }
     }
     for (g, w) in GENERICS {
+        out.push(format!("pub struct r#Type{g}{w} {{ r#type: u8, #[a(k = \"bad\")] r#fn: u8, plain: u8 }}"));
+        out.push(format!("enum r#Enum{g}{w} {{ r#Match, #[a(k = \"bad\")] r#Loop {{ #[a(k = \"bad\")] r#x: u8 }}, Plain(u8) }}"));
         out.push(format!("pub union Foo{g}{w} {{ a: u8, b: u16 }}"));
         out.push(format!("#[a(k = 7)] union Foo{g}{w} {{ a: u8 }}"));
     }
@@ -411,14 +413,20 @@ fn element_cases(thorough: bool) -> (Vec<String>, Vec<String>, Vec<String>) {
         f.push(format!("struct W {{ {a}{v}foo: {ty}, other: u8 }}"));
         f.push(format!("struct W({a}{v}{ty}, u8);"));
     }
+    // raw identifiers are handed over as written
+    for (a, v, ty) in FIELD_FORMS {
+        f.push(format!("struct W {{ {a}{v}r#type: {ty}, r#fn: u8 }}"));
+    }
     let mut v = vec![];
     for i in 0..N_VARIANT_FORMS {
         v.push(format!("enum W {{ {}, Other }}", variant_form(i, "Foo")));
+        v.push(format!("enum W {{ {}, r#Other }}", variant_form(i, "r#Match").replace(" x:", " r#x:")));
     }
     let mut tp = vec![];
     for p in TYPE_PARAM_FORMS {
         tp.push(format!("struct W<{p}, U>(T, U);"));
         tp.push(format!("enum W<'a, {p}> {{ A(&'a T) }}"));
+        tp.push(format!("struct W<{}, U>(r#T, U);", p.replace("T", "r#T")));
     }
     (f, v, tp)
 }
